@@ -12,6 +12,14 @@ Theorem C19_loaded_never_panics : forall pf uni_word re_match heur_bt re_compile
   stmt_pipeline_no_panic pf uni_word re_match heur_bt re_compiles CS c_get c_add c_reset builtins.
 Proof. exact pipeline_no_panic_ok. Qed.
 Print Assumptions C19_loaded_never_panics.
+(* ... also when the event overlaps a reload: the rule it was matched by may come from one
+   configuration and the defaults it is handled with from another (handleEvent asks the mapper
+   twice); whatever moments of the system's life rule, defaults and registry are taken from,
+   handling the event does not panic *)
+Theorem C19_event_across_reload_never_panics : forall pf uni_word re_match heur_bt re_compiles CS c_get c_add c_reset builtins,
+  stmt_event_across_reload_no_panic pf uni_word re_match heur_bt re_compiles CS c_get c_add c_reset builtins.
+Proof. exact event_across_reload_no_panic_ok. Qed.
+Print Assumptions C19_event_across_reload_never_panics.
 (* ... nor a scrape fail (reserved rule labels are refused per event, C03_scrape_ok) *)
 Theorem C19_loaded_scrapes_ok : forall pf uni_word re_match heur_bt re_compiles CS c_get c_add c_reset builtins,
   stmt_scrape_ok pf uni_word re_match heur_bt re_compiles CS c_get c_add c_reset builtins.
